@@ -227,6 +227,11 @@ def main(ctx):
     uneven = []
     for lu in ([{"cls": "Halton", "bs": 3}], [{"cls": "RandomUniform", "bs": 3}, {"cls": "BestBatch", "bs": 2}], [{"cls": "RSequence", "bs": 4}]):
         uneven.append({"lineup": lu, "seed": S, "dims": 2, "model": "slow_uneven2", "ensemble": 2, "loss": "minkowski", "batches": 2 * len(lu)})
+    # models that are not well behaved: one that rewrites its parameter vector in place (n_jobs = 1 hands over the live array, a worker
+    # process gets a copy), one that returns a NaN tail for some seeds (anything "repaired" inside a worker would depend on n_jobs)
+    for mdl, loss in (("mutating2", "minkowski"), ("nan_by_seed2", "msm"), ("nan_by_seed2", "fourier")):
+        for lu in ([{"cls": "Halton", "bs": 2}, {"cls": "BestBatch", "bs": 2}], [{"cls": "RandomUniform", "bs": 3}, {"cls": "RSequence", "bs": 1}]):
+            uneven.append({"lineup": lu, "seed": S, "dims": 2, "model": mdl, "ensemble": 3 if mdl != "mutating2" else 2, "loss": loss, "batches": 4, "D": 2, "T": 8})
     # larger-scope probes: five samplers, ensemble 5, batch size 7, 12 batches
     five = [{"cls": c, "bs": b} for c, b in zip(("Halton", "BestBatch", "RandomUniform", "XGBoost", "RSequence"), (7, 3, 2, 2, 4))]
     cfgs.append({"lineup": five, "seed": S, "dims": 3, "model": "gauss2", "ensemble": 5, "loss": "minkowski", "batches": 12})
